@@ -82,6 +82,8 @@ extern Stats g_stats;
 // sanitizer death callback / fatal signal handler together with the statistics gathered so far.
 void set_current_case(const std::string &text);
 void set_current_case_lazy(std::string (*render)(void *), void *ctx); // rendered only when a crash happens
+// --mode c01: a check binary lends its generator to C01; semantic verdicts are dropped, only sanitizer reports (process death) count
+extern bool g_only_crashes;
 void install_crash_capture();
 void disable_crash_capture(); // for forked children whose death is handled by their parent (c18)
 
